@@ -1365,7 +1365,7 @@ func main() {
 	}
 	run.Extra["exhaustive_schedules"] = exhaustive(run, depth)
 	run.Extra["exhaustive"] = true
-	n := run.Scale(400, 3000)
+	n := run.Scale(400, 2500)
 	for i := 0; i < n; i++ {
 		r := run.RNG.Fork(uint64(i))
 		randomSchedule(run, r, 26, i%3 == 2)
